@@ -21,7 +21,7 @@ READY = True
 TECHNIQUE = ("TLC model checking of the CPCA block-variance ledger (Cpca.tla: ideal runs accepted, three faults rejected) + TLC trace validation of ledgers recorded "
              "from the real CPCA/CPCAScorePredictor against an eigen-decomposition of the block-scaled concatenation computed by the harness (long-double Jacobi, "
              "LAPACK dsyev) and against the library's own PCA, with criterion-implied bounds computed by TLC")
-LEVEL_TEXT = ("Sampled inputs: 2..4 blocks x 1..8 variables, 5..30 objects, scalings 0..5, 1..min-width components, separated spectra over data scales 1e-2..1e3 are fitted by the "
+LEVEL_TEXT = ("Sampled inputs: 2..4 blocks x 1..8 variables, 5..30 objects, scalings 0..5, 1..min-width components, separated spectra over data magnitudes 1e-8..1e6 (scaling 0; 1..1e3 for the normalising options) are fitted by the "
               "real CPCA(); TLC validates per component that the super score equals +- the oracle PCA score of the identically preprocessed, sqrt(width)-scaled concatenation "
               "within the CPCA criterion's bound, that total explained variance equals that PCA's, super = block scores x super weights, block variances are cumulative, "
               "monotone, within [0,100] and consistent with the total, and that projecting the training tensor reproduces the super scores.")
@@ -140,11 +140,18 @@ def _account(ctx, chunks):
                     worst["pcaref"] = max(worst["pcaref"], e["dist"] * 1e-9 / (btc[e["k"] - 1] + btp[e["k"] - 1]))
                 elif e["e"] == "Oracle":
                     worst["oracle"] = max(worst["oracle"], e["err"])
+                elif e["e"] == "Scale":
+                    for k in range(min(m, len(e["terr"]))):
+                        worst["scale_pair"] = max(worst.get("scale_pair", 0.0), e["terr"][k] * 1e-9 / (2 * btc[k]))
+                        worst["scale_var_1e-9"] = max(worst.get("scale_var_1e-9", 0), e["verr"][k], e["berr"][k])
     if nfit == 0:
         raise InfraError("c09 harness produced no fits")
     fits = [(next((e for e in b if e["e"] == "Fit"), None), next((e["sig2"] for e in b if e["e"] == "Spectrum"), [])) for ev in chunks for b in tlc.split_blocks(ev)]
     classes = dict(compared=sum(1 for f, s2 in fits if f and _ncmp(s2) >= 1), two_compared=sum(1 for f, s2 in fits if f and _ncmp(s2) >= 2),
                    multi_component=sum(1 for f, s2 in fits if f and f["npc"] >= 2), different_widths=sum(1 for f, s2 in fits if f and f["diffw"]))
+    classes["magnitude_pairs"] = sum(1 for ev in chunks for e in ev if e["e"] == "Scale")
+    classes["small_magnitude_multi_component"] = sum(1 for f, s2 in fits if f and f["scaling"] == 0 and f["dec"] <= -6 and f["npc"] >= 2)
+    classes["large_magnitude"] = sum(1 for f, s2 in fits if f and f["scaling"] == 0 and f["dec"] >= 4)
     for sc in range(0, 6):
         classes["scaling_%d" % sc] = sum(1 for f, s2 in fits if f and f["scaling"] == sc)
     for nbk in (2, 3, 4):
@@ -200,6 +207,9 @@ def _name(block, ev):
         if ev.get("k") != sum(1 for x in block[:block.index(ev)] if x["e"] == "Cpca") + 1:
             return "components", "component index %s out of order" % ev.get("k")
         return "ledger", "event rejected: %s" % ev
+    if e == "Scale":
+        return "equivariance:scale", ("CPCA(2^%d X) differs from CPCA(X) (data decade 1e%s): normalised super scores %s, total explained variance (relative) %s, "
+                                      "block explained variance %s (1e-9 units, per component)" % (ev["kexp"], fit.get("dec"), ev["terr"], ev["verr"], ev["berr"]))
     if e == "Truth":
         if ev["k"] <= m and ev["dist"] * 1e-9 > btc[ev["k"] - 1]:
             return "super", "component %d: super score differs from +-(PCA score of the block-scaled concatenation, oracle) by %.3g relative (bound %.3g)" % (ev["k"], ev["dist"] * 1e-9, btc[ev["k"] - 1])
@@ -277,7 +287,7 @@ def run(ctx):
         ctx.note("recorded %d models (%d dropped as outside the quantifier); worst observed: %s" % (nfit, ndrop, ctx.steps["worst_observed"]))
         for b in tlc.split_blocks(chunks[0])[:2]:
             ctx.sample(b)
-        ctx.cov["rule"] = ("random multi-block data (2..4 blocks x 1..8 variables, 5..30 objects, scalings 0..5, npc 1..min width, data decades 1e-2..1e3) whose block-scaled "
+        ctx.cov["rule"] = ("random multi-block data (2..4 blocks x 1..8 variables, 5..30 objects, scalings 0..5, npc 1..min width; data decades 1e-8..1e6 for scaling 0 plus a paired run rescaled by 2^+-(4..27), decades 1..1e3 for scalings 1..5) whose block-scaled "
                            "concatenation is built from a known separated SVD; one evaluation = one CPCA model (+ projection + library PCA reference) validated by TLC; "
                            "distinct = distinct (blocks, widths, scaling, npc); non-trivial = at least two blocks of different width")
         rej = _validate(ctx, chunks, "trace_cpca", 4 if ctx.quick else 10)
